@@ -180,6 +180,7 @@ type vfzEnv struct {
 	gctr  atomic.Uint64
 	stop  atomic.Pointer[vfzStop]
 	rec   atomic.Pointer[vfzRecorder]
+	sched atomic.Pointer[vfzSched]
 	bar   atomic.Pointer[vfzBarrier]
 	fidMu sync.Mutex
 	fids  map[uint64]string
@@ -248,6 +249,10 @@ func (e *vfzEnv) gate(when, op, p string) {
 		r.mu.Lock()
 		r.list = append(r.list, when+" "+op+" "+p)
 		r.mu.Unlock()
+	}
+	if sc := e.sched.Load(); sc != nil {
+		sc.pass(when + " " + op + " " + p)
+		return
 	}
 	if st := e.stop.Load(); st != nil && (st.any || st.when == when && st.op == op && st.p == p) && st.skip.Add(-1) == -1 {
 		close(st.reached)
@@ -817,8 +822,9 @@ func (c *vfzClient) dataBytes(n int) []byte {
 	return b
 }
 
-// stepStorm: attribute traffic on the client's own objects without injected delays: GETATTRs of
-// different files (all of different sizes) by different clients at the same moment, with an
+// stepStorm: attribute and read traffic on the client's own objects without injected delays: GETATTRs
+// and whole-file READs of different files (all of different sizes and contents) by different clients
+// at the same moment, with an
 // occasional size change in between (replies are checked like every other distinct-names history).
 func (c *vfzClient) stepStorm() {
 	f, ok := c.pickKind("F")
@@ -827,8 +833,12 @@ func (c *vfzClient) stepStorm() {
 		return
 	}
 	switch x := c.r.Intn(100); {
-	case x < 78:
+	case x < 42:
 		c.getattr(f)
+	case x < 82:
+		// whole-file READs: the files of a storm differ in size and in every byte, so a reply that
+		// carries another request's data or attributes matches no state of this file
+		c.read(f, 0, 64)
 	case x < 86:
 		c.getattr(c.dirs[c.r.Intn(2)])
 	case x < 93:
@@ -1388,6 +1398,18 @@ func vfzNestedEnv(t testing.TB) (*vfzHist, uint64, uint64) {
 	return h, dh, hx
 }
 
+// vfzBrief: a nested / paired schedule runs at minimal TTL and is judged on completion and final state
+// only; its requests are kept as one readable string each (the trace spec does not look at them).
+func vfzBrief(line M) M {
+	brief := []string{}
+	for _, o := range line["ops"].([]M) {
+		nm, _ := o["name"].(string)
+		brief = append(brief, fmt.Sprintf("c%v [%v,%v] %v /%s %s = %v", o["c"], o["inv"], o["resp"], o["proc"], strings.Join(o["h"].([]string), "/"), nm, o["st"]))
+	}
+	line["ops"], line["brief"] = []M{}, brief
+	return line
+}
+
 // vfzWithin runs f and reports whether it returned within 10 s (else: the goroutine dump).
 func vfzWithin(f func()) (bool, string) {
 	done := make(chan struct{})
@@ -1473,9 +1495,254 @@ func vfzNested(t testing.TB, tr *vfTrace, seed int64, base int) (int, bool) {
 					vfzFlush(tr)
 					return n, true
 				}
-				tr.Emit(h.record(hist, seed, M{"scenario": name}))
+				tr.Emit(vfzBrief(h.record(hist, seed, M{"scenario": name})))
 				vfzFlush(tr)
 				h.e.n.Close()
+			}
+		}
+	}
+	return n, false
+}
+
+// ---------------------------------------------------------------- paired schedules
+
+// A paired schedule steps TWO requests of two clients through their backend-operation boundaries
+// under the harness's control: request A is advanced to its boundary i, request B to its boundary j,
+// then both are advanced alternately one boundary at a time until they return. A request that sits
+// inside a critical section when it reaches a boundary keeps its lock while the other one runs -
+// the interleavings in which lock-order inversions and lost wake-ups show. Every (i, j) is tried.
+// The handler goroutine of a request is recognised by its goroutine id (requests are started one
+// after the other, each parked at its first boundary before the next starts). Same objects, so no
+// reply is compared (mode "contend"): completion within 10 s, races, panics, final-state clause.
+type vfzSlot struct {
+	at     chan string   // the request arrived at a boundary
+	step   chan struct{} // permission to pass it
+	done   chan struct{} // the request returned
+	free   atomic.Bool   // pass every boundary
+	parked bool          // (driver) waits at a boundary
+	over   bool          // (driver) returned
+	count  int           // (driver) boundaries reached
+}
+
+type vfzSched struct {
+	mu       sync.Mutex
+	byG      map[uint64]*vfzSlot
+	starting *vfzSlot
+}
+
+func vfzGID() uint64 {
+	var b [64]byte
+	n := runtime.Stack(b[:], false)
+	var id uint64
+	fmt.Sscanf(string(b[:n]), "goroutine %d ", &id)
+	return id
+}
+
+func (sc *vfzSched) pass(desc string) {
+	gid := vfzGID()
+	sc.mu.Lock()
+	sl := sc.byG[gid]
+	if sl == nil && sc.starting != nil {
+		sl, sc.starting = sc.starting, nil
+		sc.byG[gid] = sl
+	}
+	sc.mu.Unlock()
+	if sl == nil || sl.free.Load() {
+		return
+	}
+	sl.at <- desc
+	<-sl.step
+}
+
+// wait: the slot's next event (arrival at a boundary / return), or false after d.
+func (sl *vfzSlot) wait(d time.Duration) bool {
+	select {
+	case <-sl.at:
+		sl.parked = true
+		sl.count++
+		return true
+	case <-sl.done:
+		sl.over = true
+		return true
+	case <-time.After(d):
+		return false
+	}
+}
+
+func (sl *vfzSlot) advance(d time.Duration) bool {
+	if sl.over {
+		return false
+	}
+	if sl.parked {
+		sl.parked = false
+		sl.step <- struct{}{}
+	}
+	return sl.wait(d)
+}
+
+type vfzPair struct {
+	name string
+	a, b func(c *vfzClient, p *vfzPairEnv)
+}
+
+type vfzPairEnv struct {
+	h            *vfzHist
+	root, d1, d2 uint64
+	ha, hb       uint64 // handles of d1/a and d2/b
+}
+
+func vfzPairs(all bool) []vfzPair {
+	ps := []vfzPair{
+		{"RENAME d1/a -> d2/a2 | RENAME d2/b -> d1/b2",
+			func(c *vfzClient, p *vfzPairEnv) { c.rename(p.d1, "a", p.d2, "a2") },
+			func(c *vfzClient, p *vfzPairEnv) { c.rename(p.d2, "b", p.d1, "b2") }},
+	}
+	if all {
+		ps = append(ps,
+			vfzPair{"RENAME d1/a -> d2/a2 | CREATE d2/c",
+				func(c *vfzClient, p *vfzPairEnv) { c.rename(p.d1, "a", p.d2, "a2") },
+				func(c *vfzClient, p *vfzPairEnv) { c.create(p.d2, "c", 1, u32p(0644)) }},
+			vfzPair{"WRITE d1/a | SETATTR(size) d1/a",
+				func(c *vfzClient, p *vfzPairEnv) { c.write(p.ha, 1, []byte{7, 8, 9}) },
+				func(c *vfzClient, p *vfzPairEnv) { c.setattr(p.ha, nil, u64p(1)) }},
+			vfzPair{"RENAME d1/a -> d1/a2 | READDIRPLUS d1",
+				func(c *vfzClient, p *vfzPairEnv) { c.rename(p.d1, "a", p.d1, "a2") },
+				func(c *vfzClient, p *vfzPairEnv) { c.readdir(p.d1, true) }},
+			vfzPair{"REMOVE d1/a | WRITE d1/a",
+				func(c *vfzClient, p *vfzPairEnv) { c.remove(p.d1, "a") },
+				func(c *vfzClient, p *vfzPairEnv) { c.write(p.ha, 0, []byte{5, 6}) }})
+	}
+	return ps
+}
+
+func vfzNewPairEnv(t testing.TB) *vfzPairEnv {
+	cfg := vfzCfg{TTL: "min", Mode: "contend"}
+	e := vfzNewEnv(t, cfg, 13)
+	root := e.mount(t)
+	boot := &vfzClient{e: e, id: -1, hs: map[uint64]*vfzHandle{}, kinds: map[string]string{}, r: &vfzRand{s: 13}, xid: 10}
+	boot.hold(root, []string{})
+	boot.mkdir(root, "d1")
+	boot.mkdir(root, "d2")
+	find := func(key string) uint64 {
+		for h, x := range boot.hs {
+			if vfzKey(x.p) == key {
+				return h
+			}
+		}
+		return 0
+	}
+	p := &vfzPairEnv{root: root, d1: find("d1"), d2: find("d2")}
+	boot.create(p.d1, "a", 0, u32p(0644))
+	boot.create(p.d2, "b", 0, u32p(0644))
+	p.ha, p.hb = find("d1/a"), find("d2/b")
+	if p.d1 == 0 || p.d2 == 0 || p.ha == 0 || p.hb == 0 {
+		t.Fatalf("paired: setup failed")
+	}
+	boot.write(p.ha, 0, []byte{1, 2, 3})
+	p.h = &vfzHist{e: e, cfg: cfg, init: []M{}}
+	for i := 0; i < 2; i++ {
+		c := &vfzClient{e: e, id: i, xid: uint32(1000 * (i + 1)), hs: map[uint64]*vfzHandle{}, kinds: map[string]string{}, dirs: []uint64{root, p.d1},
+			r: &vfzRand{s: uint64(i + 1)}, names: []string{"a", "b"}}
+		for _, hh := range boot.order {
+			c.hold(hh, boot.hs[hh].p)
+		}
+		p.h.clients = append(p.h.clients, c)
+	}
+	return p
+}
+
+// vfzPaired runs the paired schedules; returns how many were run and whether a request hung.
+func vfzPaired(t testing.TB, tr *vfTrace, seed int64, base int) (int, bool) {
+	const short = 300 * time.Millisecond // a request that does not reach its next boundary: blocked on a lock
+	n := 0
+	count := func(f func(c *vfzClient, p *vfzPairEnv)) int {
+		p := vfzNewPairEnv(t)
+		rec := &vfzRecorder{}
+		p.h.e.rec.Store(rec)
+		f(p.h.clients[0], p)
+		p.h.e.rec.Store(nil)
+		p.h.e.n.Close()
+		return len(rec.list)
+	}
+	for _, pr := range vfzPairs(vfThorough() || vfEnvInt("VF_LIN_PAIRED", 1) == 2) {
+		na, nb := count(pr.a), count(pr.b)
+		for i := 0; i < na; i++ {
+			for j := 0; j < nb; j++ {
+				hist := base - n
+				n++
+				fmt.Fprintf(os.Stderr, "VF-LIN-HIST %d\n", hist)
+				name := fmt.Sprintf("paired: %s, first advanced to its boundary %d, second to its boundary %d, then in step", pr.name, i, j)
+				p := vfzNewPairEnv(t)
+				sc := &vfzSched{byG: map[uint64]*vfzSlot{}}
+				p.h.e.sched.Store(sc)
+				slots := [2]*vfzSlot{}
+				fns := [2]func(c *vfzClient, p *vfzPairEnv){pr.a, pr.b}
+				upto := [2]int{i, j}
+				for x := 0; x < 2; x++ {
+					sl := &vfzSlot{at: make(chan string, 1), step: make(chan struct{}), done: make(chan struct{})}
+					slots[x] = sl
+					sc.mu.Lock()
+					sc.starting = sl
+					sc.mu.Unlock()
+					go func(x int) { defer close(sl.done); fns[x](p.h.clients[x], p) }(x)
+					sl.wait(short) // parks at its first boundary (or returns, or blocks)
+					for sl.count <= upto[x] && sl.advance(short) {
+					}
+				}
+				// in step, until both returned; nothing moving for 10 s = hung
+				idle := time.Duration(0)
+				for !(slots[0].over && slots[1].over) && idle < 10*time.Second {
+					moved := false
+					for _, sl := range slots {
+						if !sl.over && sl.advance(short) {
+							moved = true
+						}
+					}
+					if moved {
+						idle = 0
+					} else {
+						idle += 2 * short
+					}
+				}
+				hung := !(slots[0].over && slots[1].over)
+				dump := ""
+				if hung {
+					buf := make([]byte, 1<<20)
+					dump = string(buf[:runtime.Stack(buf, true)])
+				}
+				p.h.e.sched.Store(nil)
+				for _, sl := range slots {
+					sl.free.Store(true)
+				}
+				if !hung {
+					steps := []func(){
+						func() { p.h.clients[0].getattr(p.d1) },
+						func() { p.h.clients[1].getattr(p.d2) },
+						func() { p.h.clients[0].readdir(p.d1, true) },
+						func() { p.h.clients[1].readdir(p.d2, true) },
+						func() { p.h.clients[0].lookup(p.d1, "b2") },
+						func() { p.h.clients[1].getattr(p.ha) },
+						func() { p.h.clients[0].rename(p.d2, "a2", p.d1, "a") },
+					}
+					for _, f := range steps {
+						if ok, d := vfzWithin(f); !ok {
+							hung, dump = true, d
+							break
+						}
+					}
+				}
+				if hung {
+					fmt.Fprintf(os.Stderr, "VF-LIN-DEADLOCK-BEGIN %d\n%s\nVF-LIN-DEADLOCK-END\n", hist, dump)
+					tr.Emit(M{"ev": "hist", "hist": hist, "scenario": name, "seed": int(seed % (1 << 30)), "cfg": p.h.cfg, "T": 0, "nclients": 2, "init": []M{}, "ops": []M{},
+						"final": []M{}, "tab": []M{}, "byp": []M{}, "badnodes": 0, "attr": []M{}, "dirc": []M{}, "expired": 0,
+						"rounds": M{"n": 0, "ntab": []int{}, "nbyp": []int{}, "nun": []int{}, "odd": []M{}},
+						"events": []M{{"ev": "deadlock", "what": "a request did not complete within 10 s (" + name + ")", "detail": ""}}})
+					vfzFlush(tr)
+					return n, true
+				}
+				tr.Emit(vfzBrief(p.h.record(hist, seed, M{"scenario": name})))
+				vfzFlush(tr)
+				p.h.e.n.Close()
 			}
 		}
 	}
@@ -1625,6 +1892,15 @@ func TestVF_Linearize(t *testing.T) {
 			nh = 0 // (as for a hung history below: stop here)
 		}
 	}
+	npaired := 0
+	if nh > 0 && vfEnvInt("VF_LIN_PAIRED", 1) != 0 && vfEnvInt("VF_LIN_DIRECTED", 1) != 0 {
+		var hung bool
+		npaired, hung = vfzPaired(t, tr, seed, -5000)
+		if hung {
+			deadlocks++
+			nh = 0
+		}
+	}
 	for hi := 0; hi < nh; hi++ {
 		fmt.Fprintf(os.Stderr, "VF-LIN-HIST %d\n", hi)
 		salt := vfzMix(uint64(seed)*1000003 + uint64(hi))
@@ -1749,6 +2025,6 @@ func TestVF_Linearize(t *testing.T) {
 		h.e.n.Close()
 	}
 	vfWriteJSON(t, "linearize.summary.json", M{"histories": nh, "nontrivial": nontrivial, "overlapped": overlapped, "ops": totalOps,
-		"deadlocks": deadlocks, "directed": ndirected, "nested": nnested, "undriven": undriven, "samples": samples, "wall_ms": time.Since(t0).Milliseconds(), "completed": true})
+		"deadlocks": deadlocks, "directed": ndirected, "nested": nnested, "paired": npaired, "undriven": undriven, "samples": samples, "wall_ms": time.Since(t0).Milliseconds(), "completed": true})
 	_ = path.Join
 }
